@@ -3,6 +3,7 @@
  * @tier quick
  * @functions FSE_readNCount FSE_readNCount_bmi2 FSE_readNCount_body
  * @bounds per instance: header of exactly HB arbitrary bytes (4, 9 quick; 6 thorough; fewer than 8 go through the zero-padded copy path of the real function), tail-aligned; requested maxSymbolValue = MAXSV (3, 5 quick; 9 thorough) with the normalized-counter array EXACTLY MAXSV+1 entries, so a write one entry too far leaves the object; main loop bound MAXSV+3 iterations is exact (one symbol per iteration)
+ * @bounds placement: instances without suffix put the header at the very end of its object (an over-read leaves the object; but CBMC 6 cuts every path on which the function's own end-of-input test forms `ip + n` beyond one-past-the-end, so those paths are NOT covered there); `_mid` instances leave 8 readable bytes behind the header: every path is covered for the counter-array writes and the functional post-conditions, an over-read of <= 8 bytes is then not detected
  * @outside headers longer than HB bytes (probe: 8 arbitrary bytes undecided in 10 min); maxSymbolValue up to 255 (Huffman weights)
  * @link lib/common/zstd_common.c lib/common/error_private.c
  * @mem loop
@@ -10,10 +11,12 @@
  * @timeout 400
  * @memgb 6
  * @instance sv3_hb4 -DMAXSV=3 -DHB=4
- * @instance sv5_hb4 -DMAXSV=5 -DHB=4
- * @instance sv3_hb8 timeout=300 -DMAXSV=3 -DHB=8
- * @instance sv5_hb9 tier=thorough timeout=1800 memgb=12 -DMAXSV=5 -DHB=9
- * @instance sv9_hb6 tier=thorough timeout=1500 memgb=12 cbmc="--unwind 14" -DHB=6 -DMAXSV=9
+ * @instance sv5_hb4_mid timeout=400 -DMAXSV=5 -DHB=4 -DBACKSLACK=8
+ * @instance sv3_hb8_mid timeout=300 -DMAXSV=3 -DHB=8 -DBACKSLACK=8
+ * @instance sv5_hb4 tier=thorough timeout=900 allowub=1 -DMAXSV=5 -DHB=4
+ * @instance sv3_hb8 tier=thorough timeout=900 allowub=1 -DMAXSV=3 -DHB=8
+ * @instance sv5_hb9 allowub=1 tier=thorough timeout=1800 memgb=12 -DMAXSV=5 -DHB=9
+ * @instance sv9_hb6 allowub=1 tier=thorough timeout=1500 memgb=12 cbmc="--unwind 14" -DHB=6 -DMAXSV=9
  */
 #include "v.h"
 #include <string.h>
@@ -26,7 +29,10 @@
 #define MAXSV 12
 #endif
 static short g_norm[V_SLACK / 2 + MAXSV + 1];
-static BYTE  g_src[V_SLACK + HB];
+#ifndef BACKSLACK
+#define BACKSLACK 0
+#endif
+static BYTE  g_src[V_SLACK + HB + BACKSLACK];
 
 void harness(void)
 {
@@ -38,7 +44,7 @@ void harness(void)
     VASSUME(hbSize == HB);
     VASSUME(maxSV == MAXSV);
     norm = g_norm + (sizeof g_norm / sizeof g_norm[0]) - (maxSV + 1);
-    src = g_src + sizeof g_src - hbSize;
+    src = g_src + sizeof g_src - hbSize - BACKSLACK;
     for (i = 0; i < HB; i++) g_src[V_SLACK + i] = nondet_uchar();
     for (i = 0; i < V_SLACK / 2; i++) g_norm[i] = 0x5A5A;
     r = FSE_readNCount(norm, &maxSV, &tableLog, src, hbSize);
